@@ -705,7 +705,50 @@ func (fr *Frame) selectStmt(st *State, in *ssa.Select) {
 		c.assume(implies(st.Reach, and(sx("bvsle", c.intLit(lo, ii), vals[0]), sx("bvslt", vals[0], c.intLit(int64(len(in.States)), ii)))))
 	}
 	fr.tup[in] = vals
+	// a send offered by the select is an effect like a call: "callsite select-send:<channel> name: cond" clauses of the
+	// function under verification are checked where the send is offered ($0 is the value offered)
+	for _, s := range in.States {
+		if s.Dir == types.SendOnly && s.Send != nil {
+			fr.curSite = in
+			fr.pseudoCallSpecs(st, "select-send:"+fr.describeValue(s.Chan), []Val{{T: fr.val(s.Send), Ty: s.Send.Type()}}, in.Pos())
+			x.bump(st, "select-send:"+fr.describeValue(s.Chan))
+		}
+	}
 	if in.Blocking {
 		fr.blocking(st, "select", in.Pos())
+	}
+}
+
+// pseudoCallSpecs checks the top contract's callsite clauses that name an effect which is not a call
+func (fr *Frame) pseudoCallSpecs(st *State, key string, args []Val, pos token.Pos) {
+	x := fr.x
+	top := x.topFrame
+	if top == nil || top.ct == nil {
+		return
+	}
+	for _, cs := range top.ct.Calls {
+		if cs.Callee != key {
+			continue
+		}
+		sc := top.scope(st, top.entry)
+		sc.vars = map[string]Val{}
+		for i, a := range args {
+			sc.vars[fmt.Sprintf("$%d", i)] = a
+		}
+		sc.localFrame = fr
+		if fr == top {
+			sc.at = fr.curSite
+		}
+		nm := cs.Clause.Name
+		if nm == "" {
+			nm = mangle(key)
+		}
+		gv, ok := sc.tryEval(cs.Clause.E)
+		if !ok || !(gv.K == "bool" || (gv.Ty != nil && isBool(gv.Ty))) {
+			x.c.oblige(fmt.Sprintf("%s#call:%s", x.target, nm), "call", x.target, "callsite "+cs.Callee+" "+cs.Clause.Text+"   [does not evaluate against the current code]", fr.pos(pos), st.Reach, "false", nil)
+			continue
+		}
+		x.c.oblige(fmt.Sprintf("%s#call:%s", x.target, nm), "call", x.target, "callsite "+cs.Callee+" "+cs.Clause.Text, fr.pos(pos), st.Reach, gv.T, x.topReqs)
+		x.c.assume(implies(st.Reach, gv.T))
 	}
 }
